@@ -127,4 +127,81 @@ theorem dictEq_iff (a b : Dict) (ha : a.keys.Nodup) (hb : b.keys.Nodup) : dictEq
       rw [← hs kv.1]
       exact get?_of_mem_nodup a ha kv.1 kv.2 hkv
 
+/-! ### `d[k] = v` -/
+
+theorem get?_set_self : ∀ (d : Dict) (k v : String), (d.set k v).get? k = some v
+  | [], k, v => by simp [Dict.set, Dict.get?]
+  | (k', v') :: d, k, v => by
+    simp only [Dict.set]
+    by_cases hb : (k' == k) = true
+    · rw [if_pos hb]; simp [Dict.get?, hb]
+    · rw [if_neg hb]
+      have hb' : (k' == k) = false := by simpa using hb
+      have ih := get?_set_self d k v
+      simp only [Dict.get?, List.find?_cons, hb'] at ih ⊢
+      exact ih
+
+theorem get?_set_ne : ∀ (d : Dict) (k v x : String), x ≠ k → (d.set k v).get? x = d.get? x
+  | [], k, v, x, h => by
+    have : (k == x) = false := by simpa using fun e => h e.symm
+    simp [Dict.set, Dict.get?, this]
+  | (k', v') :: d, k, v, x, h => by
+    simp only [Dict.set]
+    by_cases hb : (k' == k) = true
+    · rw [if_pos hb]
+      have hk : k' = k := by simpa using hb
+      have : (k' == x) = false := by simpa [hk] using fun e => h e.symm
+      simp [Dict.get?, this]
+    · rw [if_neg hb]
+      have ih := get?_set_ne d k v x h
+      simp only [Dict.get?, List.find?_cons] at ih ⊢
+      cases hx : (k' == x) with
+      | true => rfl
+      | false => exact ih
+
+theorem get?_none_of_not_key : ∀ (d : Dict) (k : String), k ∉ d.keys → Dict.get? d k = none
+  | [], k, _ => rfl
+  | kv :: d, k, h => by
+    simp only [Dict.keys, List.map_cons, List.mem_cons, not_or] at h
+    have hb : (kv.1 == k) = false := by simpa using fun e => h.1 e.symm
+    simp only [Dict.get?, List.find?_cons, hb]
+    exact get?_none_of_not_key d k h.2
+
+theorem has_iff_get? (d : Dict) (k : String) : d.has k = true ↔ ∃ v, d.get? k = some v := by
+  induction d with
+  | nil => simp [Dict.has, Dict.get?]
+  | cons kv d ih =>
+    by_cases hb : (kv.1 == k) = true
+    · simp [Dict.has, Dict.get?, hb]
+    · have hb' : (kv.1 == k) = false := by simpa using hb
+      simp only [Dict.has, List.any_cons, hb', Bool.false_or, Dict.get?, List.find?_cons] at ih ⊢
+      exact ih
+
+theorem has_set (d : Dict) (k v x : String) : (d.set k v).has x = (d.has x || x == k) := by
+  induction d with
+  | nil => simp [Dict.set, Dict.has, Bool.beq_comm]
+  | cons kv d ih =>
+    simp only [Dict.set]
+    by_cases hb : (kv.1 == k) = true
+    · rw [if_pos hb]
+      have hk : kv.1 = k := by simpa using hb
+      simp only [Dict.has, List.any_cons]
+      by_cases hx : x = k
+      · subst hx; simp [hk]
+      · have : (x == k) = false := by simpa using hx
+        simp [this]
+    · rw [if_neg hb]
+      simp only [Dict.has, List.any_cons] at ih ⊢
+      rw [ih, Bool.or_assoc]
+
+/-- writing the same binding twice is writing it once -/
+theorem set_set_self (d : Dict) (k v : String) : (d.set k v).set k v = d.set k v := by
+  induction d with
+  | nil => simp [Dict.set]
+  | cons kv d ih =>
+    simp only [Dict.set]
+    by_cases hb : (kv.1 == k) = true
+    · rw [if_pos hb]; simp only [Dict.set, hb, if_true]
+    · rw [if_neg hb]; simp only [Dict.set, if_neg hb, ih]
+
 end Metapype
